@@ -419,6 +419,8 @@ func GetKeyAt(sortedKeys []string, size int64, pos int64, forward bool) string {
 
 // SearchData quiery the table based on the input
 func (t *Table) SearchData(input QueryInput) ([]map[string]*types.Item, map[string]*types.Item) {
+	t.checkSearchExpressions(input)
+
 	items := []map[string]*types.Item{}
 	limit := input.Limit
 	exclusiveStartKey := input.ExclusiveStartKey
@@ -490,6 +492,26 @@ func (t *Table) getLastKey(item map[string]*types.Item, limit, count, scanned, k
 	}
 
 	return key
+}
+
+// checkSearchExpressions rejects a malformed key condition or filter even when the search visits
+// no item (empty table, empty partition, key condition that matches nothing): the expressions are
+// otherwise only parsed while an item is evaluated. It fails the way interpreterMatch does.
+func (t *Table) checkSearchExpressions(input QueryInput) {
+	if t.UseNativeInterpreter {
+		// the expression text may be the name of a registered matcher
+		return
+	}
+
+	for _, expression := range []string{input.KeyConditionExpression, input.FilterExpression} {
+		if expression == "" {
+			continue
+		}
+
+		if err := t.LangInterpreter.CheckSyntax(expression); err != nil {
+			panic(err)
+		}
+	}
 }
 
 func (t *Table) interpreterMatch(input interpreter.MatchInput) bool {
